@@ -78,6 +78,24 @@ Definition cycle_only (a b : list (N * sexp)) : bool :=
             | _, _ => false end) ks
   end.
 
+(* known class F-C19c: the only differing entries are npm: specifiers for which one graph holds the npm
+   module and the other the error of a failed dependency-graph resolution (the specifier was requested
+   statically and dynamically: the dynamic request turns the failure into an error entry, and which
+   request decides depends on the order of the builds) *)
+Definition is_npm_module_payload (p : sexp) : bool :=
+  match p with L [A 0; L (A 3 :: _)] => true | _ => false end.
+Definition is_npm_depgraph_error_payload (p : sexp) : bool :=
+  match p with L [A 2; L [A 8; _; _; A 1]] => true | _ => false end.
+Definition npm_depgraph_only (a b : list (N * sexp)) : bool :=
+  match differing_keys a b with
+  | [] => false
+  | ks => forallb (fun k =>
+            match lookup k a, lookup k b with
+            | Some p, Some q => (is_npm_module_payload p && is_npm_depgraph_error_payload q) ||
+                                (is_npm_depgraph_error_payload p && is_npm_module_payload q)
+            | _, _ => false end) ks
+  end.
+
 (* restriction of a keyed list to a set of keys *)
 Definition restrict (keys : list N) (a : list (N * sexp)) : list (N * sexp) :=
   filter (fun p => mem (fst p) keys) a.
@@ -119,6 +137,7 @@ Definition run_c19 (input : sexp) : sexp :=
                                         | _ => true end in
                        if context_only fsl' asl' && reds_same then [of_atoms [CLASSTAG; 1901]]
                        else if cycle_only fsl' asl' && reds_same then [of_atoms [CLASSTAG; 1902]]
+                       else if npm_depgraph_only fsl' asl' && reds_same then [of_atoms [CLASSTAG; 1903]]
                        else []))]
           | None => L [A 424242]
           end
